@@ -188,8 +188,19 @@ func (r *Run) ReplayCase(v any) error {
 	return json.Unmarshal(w.Case, v)
 }
 
-// Finish writes the shard report.
+// Finish writes the shard report. It must be deferred directly (defer r.Finish()): if the test is panicking (a harness
+// crash - never a property verdict) the report says so and is marked as not exhaustive.
 func (r *Run) Finish() {
+	if rec := recover(); rec != nil {
+		r.rep.Exhaustive = false
+		r.rep.Counters["harness_panics"]++
+		msg := fmt.Sprint(rec)
+		if len(msg) > 300 {
+			msg = msg[:300]
+		}
+		r.rep.Notes = append(r.rep.Notes, "HARNESS PANIC (shard incomplete): "+msg)
+		defer panic(rec)
+	}
 	for k := range r.nontrivial {
 		r.rep.Nontrivial = append(r.rep.Nontrivial, k)
 	}
